@@ -38,12 +38,15 @@ def onCurve (c : Curve) : Point → Bool
 def neg (c : Curve) : Point → Point
   | (x, y) => ((c.p - x % c.p) % c.p, y % c.p)
 
-/-- (x1,y1) + (x2,y2) = ((x1 y2 + y1 x2)/(1 + d x1 x2 y1 y2), (y1 y2 − a x1 x2)/(1 − d x1 x2 y1 y2)) -/
+/-- (x1,y1) + (x2,y2) = ((x1 y2 + y1 x2)/(1 + d x1 x2 y1 y2), (y1 y2 − a x1 x2)/(1 − d x1 x2 y1 y2)).
+    Both quotients are taken with one field inversion: with t = d x1 x2 y1 y2 and i = 1/((1 + t)(1 − t)),
+    1/(1 + t) = (1 − t)·i and 1/(1 − t) = (1 + t)·i. -/
 def add (c : Curve) : Point → Point → Point
   | (x1, y1), (x2, y2) =>
     let t := c.d * (x1 * x2 % c.p) % c.p * (y1 * y2 % c.p) % c.p
-    let x3 := (x1 * y2 + y1 * x2) % c.p * finv c ((1 + t) % c.p) % c.p
-    let y3 := fsub c (y1 * y2) (c.a * (x1 * x2 % c.p)) * finv c (fsub c 1 t) % c.p
+    let i := finv c ((1 + t) % c.p * fsub c 1 t % c.p)
+    let x3 := (x1 * y2 + y1 * x2) % c.p * (fsub c 1 t * i % c.p) % c.p
+    let y3 := fsub c (y1 * y2) (c.a * (x1 * x2 % c.p)) * ((1 + t) % c.p * i % c.p) % c.p
     (x3, y3)
 
 def dbl (c : Curve) (p : Point) : Point := add c p p
